@@ -9,3 +9,9 @@ import XProofs.Properties.C07
 #print axioms Properties.C07.C07_delCol_keeps_coherence
 #print axioms Properties.C07.C07_history_coherent
 #print axioms Properties.C07.C07_lookup_after_history
+#print axioms Properties.C07.C07_string_forms_resolve_by_scan
+#print axioms Properties.C07.C07_cell_access_agrees_with_get_index
+#print axioms Properties.C07.C07_unique_labels_resolve
+#print axioms Properties.C07.C07_unique_labels_distinct
+#print axioms Properties.C07.C07_unique_labels_after_history
+#print axioms Properties.C07.C07_string_forms_after_history
